@@ -45,6 +45,12 @@ var verifRoot = "/verif"
 var repoRoot = "/repo"
 
 func main() {
+	if v := os.Getenv("VERIF_ROOT"); v != "" {
+		verifRoot = v
+	}
+	if v := os.Getenv("VERIF_REPO"); v != "" {
+		repoRoot = v
+	}
 	if len(os.Args) < 2 {
 		fmt.Fprintln(os.Stderr, "usage: govc check|record|dump ...")
 		os.Exit(2)
@@ -130,6 +136,7 @@ func cmdCheck(record bool, args []string) int {
 	tier := fs.String("tier", "quick", "quick|thorough")
 	keep := fs.Bool("keep", false, "keep SMT files")
 	only := fs.String("only", "", "only functions containing this substring (debug; no evidence)")
+	verbose := fs.Bool("v", false, "print every obligation result")
 	fs.Parse(args)
 	t0 := time.Now()
 	pc, err := loadProp(*prop)
@@ -246,6 +253,11 @@ func cmdCheck(record bool, args []string) int {
 		}(i, j)
 	}
 	wg.Wait()
+	if *verbose {
+		for _, r := range results {
+			fmt.Printf("  %-8s %-7s %6.2fs %s\n", r.Status, r.Solver, r.Secs, r.Name)
+		}
+	}
 	return report(w, pc, *tier, seed, record, *only != "", results, translErrs, funcsUnder, t0, tLoad, tTrans)
 }
 
